@@ -154,4 +154,20 @@ PROPS = {
         'level_note': 'Token comparison uses lexer.rs on both outputs; a comment that survives behind a string literal / escaped identifier is attributed to finding K1.',
         'design_ref': '5 / C18',
     },
+    'C09': {
+        'title': 'bounded recursion',
+        'rule': 'one case = one constructed input of a family (macro chain depth 1..80, include chain 1..80 levels, macro cycles of length 1..8, include cycles 1..5, '
+                'include x macro mixes, three macro->include cycles; then random parameters up to 130) with the expectation known by construction; the depth sweep 1..80 of both chain families is enumerated completely in every run; '
+                'distinct by (family, parameter)',
+        'evaluations_key': 'cases_run',
+        'dead_worker_is_violation': True,
+        'floors': {'quick': {'cases_run': 400, 'family:macro-chain': 80, 'family:include-chain': 80, 'family:macro-cycle': 8, 'family:include-cycle': 5, 'family:mixed-chain': 32,
+                             'family:macro-include-cycle': 6, 'legal_depths_ok': 150, 'limits_reported': 80},
+                   'thorough': {'cases_run': 6000}},
+        'technique': 'runtime monitor over constructed recursion families: expected outcome by construction, a logical frame bound injected through the preprocess_str entry hook turns runaway recursion into a caught, replayable violation; process supervision catches stack overflow',
+        'level_text': 'Chains and cycles of every depth around the limit are constructed and run through the real preprocessor; the entry hook counts nested preprocess_str frames and aborts a run that exceeds (64+2)^2 frames, so non-termination is decided on logical steps, not wall clock.',
+        'level_note': 'The frame bound is a monitor-side definition of "does not hang"; a watchdog expiry would be inconclusive.',
+        'design_ref': '5 / C09',
+        'coverage_extra': {'exhaustive_subspace': 'macro-chain depth 1..80 and include-chain levels 1..80 enumerated completely'},
+    },
 }
